@@ -2,7 +2,7 @@
 from mc.checks import codec_matrix as CM
 from mc.model import x690 as M
 from mc.model import universe as U
-from mc.core.runner import Result, pyasn1_site
+from mc.core.runner import guarded, Result, pyasn1_site
 
 PROPERTY = 'C03'
 LEVEL = 'exploration'
@@ -101,7 +101,7 @@ def shard(tier, i, n, seed):
             R.violation('build.error', {'slice': name, 'T': T, 'v': v}, CM.exc_text(e),
                         'value object can be built', pyasn1_site(e), CM.case_features(T, v), idx)
             continue
-        check_case(c, tier, R)
+        guarded(R, lambda: check_case(c, tier, R), c.record(), c.feats, c.idx)
         R.features['slice:' + name] += 1
         if idx % 9973 == seed % 9973:
             R.sample({'T': M.show_type(T), 'v': v, 'reference_der': M.der(T, v).hex()
